@@ -467,10 +467,31 @@ func (p *Program) buildFieldFacts() {
 	p.ff.closeSites = map[string]int{}
 	written := map[string]bool{}
 	seenField := map[string]bool{}
+	// a whole struct value written over an existing object (assignment through a pointer or an element,
+	// copy, append) writes every field of it
+	var markAll func(t types.Type, depth int)
+	markAll = func(t types.Type, depth int) {
+		if depth > 6 {
+			return
+		}
+		switch u := t.Underlying().(type) {
+		case *types.Struct:
+			for i := 0; i < u.NumFields(); i++ {
+				written[fieldKey(t, i)] = true
+				markAll(u.Field(i).Type(), depth+1)
+			}
+		case *types.Array:
+			markAll(u.Elem(), depth+1)
+		}
+	}
 	for fn := range ssautil.AllFunctions(p.ssa) {
 		for _, b := range fn.Blocks {
 			for _, ins := range b.Instrs {
 				switch x := ins.(type) {
+				case *ssa.Store:
+					if _, fresh := x.Addr.(*ssa.Alloc); !fresh {
+						markAll(x.Val.Type(), 0)
+					}
 				case *ssa.FieldAddr:
 					pt := x.X.Type().Underlying().(*types.Pointer).Elem()
 					key := fieldKey(pt, x.Field)
@@ -497,6 +518,11 @@ func (p *Program) buildFieldFacts() {
 					}
 				case ssa.CallInstruction:
 					c := x.Common()
+					if bi, ok := c.Value.(*ssa.Builtin); ok && (bi.Name() == "copy" || bi.Name() == "append") && len(c.Args) > 0 {
+						if sl, ok := c.Args[0].Type().Underlying().(*types.Slice); ok {
+							markAll(sl.Elem(), 0)
+						}
+					}
 					if bi, ok := c.Value.(*ssa.Builtin); ok && bi.Name() == "close" && len(c.Args) == 1 {
 						if ld, ok := c.Args[0].(*ssa.UnOp); ok && ld.Op == token.MUL {
 							if fa, ok := ld.X.(*ssa.FieldAddr); ok {
